@@ -402,9 +402,10 @@ pub fn opts(small_zooms: bool) -> BoxedStrategy<Opts> {
         source_kind(),
         prop::bool::weighted(0.7),
         prop::bool::weighted(0.35),
+        proptest::option::weighted(0.5, 0u32..=10),
     )
         .prop_map(
-            |(compress, items_per_slot, block_size, zoom, channel_size, inmemory, threads, multipass, source, sorted, no_final_newline)| Opts {
+            |(compress, items_per_slot, block_size, zoom, channel_size, inmemory, threads, multipass, source, sorted, no_final_newline, max_zooms_with_manual)| Opts {
                 compress,
                 items_per_slot,
                 block_size,
@@ -416,6 +417,7 @@ pub fn opts(small_zooms: bool) -> BoxedStrategy<Opts> {
                 source,
                 sorted_chroms: sorted,
                 no_final_newline,
+                max_zooms_with_manual,
             },
         )
         .boxed()
@@ -532,6 +534,9 @@ pub fn label_opts(o: &Opts, obs: &mut crate::runner::Obs) {
         o.no_final_newline && matches!(o.source, SourceKind::SerialText | SourceKind::ParallelText),
         "text-without-final-newline",
     );
+    if let (ZoomSpec::Manual(v), Some(m)) = (&o.zoom, o.max_zooms_with_manual) {
+        obs.label_if((v.len() as u32) > m, "manual-zoom-list-longer-than-max_zooms");
+    }
     obs.label(match o.threads {
         0 => "rt=current",
         1 => "rt=multi1",
